@@ -208,7 +208,9 @@ def snippet(z, /, t, n):
         t = (t * z.sample_rate).to_value(u.one)
 
         # Snap to the sample grid if within rounding error of a whole sample
-        if abs(t - round(t)) <= max(tol, 8 * np.finfo(float).eps * abs(t)):
+        if np.isfinite(t) and (
+            abs(t - round(t)) <= max(tol, 8 * np.finfo(float).eps * abs(t))
+        ):
             t = round(t)
 
     if (t < 0) or (len(z) < t + n):
